@@ -164,7 +164,7 @@ static void compile_input (const char *name, const unsigned char *text, size_t l
     if (esc) { o->escaped = 1; snprintf (o->err, sizeof o->err, "%.280s", hx_last_error); }
     o->nerr = num_parse_error;
     snprintf (o->msg, sizeof o->msg, "%.1400s", msgs);
-    if (!esc && inherit_file && tries++ < 4) {
+    if (!esc && inherit_file && tries++ < 400) {
       /* the program wants to inherit something that is not loaded: load it as load_object() would and retry */
       char inh[PATH_MAX];
       struct largs l;
@@ -202,12 +202,15 @@ static char base_state[STATE_MAX], now_state[STATE_MAX];
 static void first_problem (const char *dump, char *out, size_t n) {
   const char *p = strstr (dump, "!! ");
   if (!p) { snprintf (out, n, "?"); return; }
-  size_t k = strcspn (p + 3, "\n");
-  if (k >= n) k = n - 1;
-  memcpy (out, p + 3, k); out[k] = 0;
-  /* strip numbers so that the key names the kind of problem */
-  for (char *q = out; *q; q++) if ((*q >= '0' && *q <= '9') || (*q >= 'a' && *q <= 'f' && q > out && q[-1] >= '0' && q[-1] <= '9')) *q = '#';
+  /* the key names the kind of problem: the text up to the first number */
+  size_t k = 0;
+  for (p += 3; *p && *p != '\n' && !(*p >= '0' && *p <= '9') && k + 1 < n; p++) out[k++] = *p == ' ' ? '-' : *p;
+  while (k && out[k - 1] == '-') k--;
+  out[k] = 0;
 }
+
+/* a detected leftover would also taint the verdict of every later element of this batch: run those in a fresh child */
+static void tainted (void) { vx_enum_restart (); }
 
 static void check_probe (const char *when) {
   outcome_t o;
@@ -221,6 +224,7 @@ static void check_probe (const char *when) {
     char d[400] = "(selftest: baseline dump corrupted)";
     if (o.dump) pd_diff (base_probe.dump, o.dump, d, sizeof d);
     vx_fail ("C02:probe-differs:dump", "%s: dump of the probe differs from the fresh-driver dump: %s", when, d);
+    tainted ();
   }
   int probe_ok = !o.escaped && o.have_prog && o.nerr == base_probe.nerr;
   free (o.dump);
@@ -228,7 +232,9 @@ static void check_probe (const char *when) {
   if (probe_ok && state_diff (base_state, now_state, 0, field, sizeof field, detail, sizeof detail)) {
     char key[200]; snprintf (key, sizeof key, "C02:residual-after-probe:%s", field);
     vx_fail (key, "%s: compiler state after compiling the probe differs from the fresh-driver state: %s", when, detail);
+    tainted ();
   }
+  if (!probe_ok) tainted ();
 }
 
 /* everything that is checked after one input has been compiled */
@@ -253,6 +259,7 @@ static void check_after_input (outcome_t *o, const char *what) {
   if (state_diff (base_state, now_state, 1, field, sizeof field, detail, sizeof detail)) {
     snprintf (key, sizeof key, "C02:residual:%s", field);
     vx_fail (key, "%s: compiler state left behind differs from the fresh-driver state: %s", what, detail);
+    tainted ();
   }
   vx_count (o->have_prog ? 0 : 1, 1);
   if ((o->have_prog && (o->nfun || o->nvar)) || o->nerr) vx_count (3, 1);
@@ -433,6 +440,7 @@ static void run_hist (long idx) {
     if (state_diff (base_state, now_state, 1, field, sizeof field, detail, sizeof detail)) {
       snprintf (key, sizeof key, "C02:residual:%s", field);
       vx_fail (key, "history [%s]: compiler state left behind differs from the fresh-driver state: %s", label, detail);
+      tainted ();
     }
   }
   vx_count (3, 1);
@@ -576,6 +584,12 @@ int main (int argc, char **argv) {
     }
   }
   else { fprintf (stderr, "unknown part %s\n", part); return 2; }
+  {
+    /* let the sanitizer runtime load its symbol tables once, here, so that forked children that report an error do not each pay for it */
+    extern int __sanitizer_symbolize_pc (void *, const char *, char *, size_t) __attribute__ ((weak));
+    char sym[256];
+    if (__sanitizer_symbolize_pc) __sanitizer_symbolize_pc ((void *) compile_file, "%f %s:%l", sym, sizeof sym);
+  }
   vx_set_enum (total, element, describe);
   return vx_run (argc, argv, 0);
 }
